@@ -569,6 +569,8 @@ def explicit_cases(cname, cls, P):
                 Case("accept-other", lambda: cls(True, vals[0], costs[-1]))]
     if short == "Mgm2OfferMessage":
         return [Case("not-offering", lambda: cls(dict(), False)),
+                # an offerer whose best joint move is the current one sends an empty offer that still asks for an answer
+                Case("offering-nothing", lambda: cls(dict(), True)),
                 Case("offering", lambda: cls(gen_field("offers", P, 0), True)),
                 Case("offering-single", lambda: cls({(vals[1], vals[0]): costs[0]}, True))]
     if short == "SyncBBTerminateMessage":
